@@ -12,6 +12,7 @@ import re
 from .. import core
 
 PROP = 'C19'
+TECHNIQUE = ('runtime monitoring: differential / round-trip oracle with exact Fraction arithmetic over generated duration renderings and malformed strings')
 LEVEL = 'exploration'
 RULE = ("case = one generated duration (d,h,m,s + optional decimal fraction on the smallest "
         "unit) with all its renderings (traditional/ISO, unit subsets, random case, inner "
